@@ -41,11 +41,11 @@ theorem C06_supported (sp : Spec) (e : Err) (hv : sp.verb = vV ∨ sp.verb = vS)
 
 /-! ### non-redactable entries never enter a redactable rendering unescaped -/
 
-theorem C06_unsafe_entry_escaped (en : Entry) (s : Str) (h : en.redactable = false) :
-    escIfNeeded true en s = escapeBytes s := by
+theorem C06_unsafe_entry_escaped (en : Entry) (s : Toks) (h : en.redactable = false) :
+    escIfNeeded true en s = escapeBytesT (stripT s) := by
   simp [escIfNeeded, h]
 
-theorem C06_plain_entry_untouched (en : Entry) (s : Str) : escIfNeeded false en s = s := by
+theorem C06_plain_entry_untouched (en : Entry) (s : Toks) : escIfNeeded false en s = s := by
   simp [escIfNeeded]
 
 /-- an entry is flagged redactable only when its buffer came from a SafeFormatError method
@@ -58,8 +58,8 @@ theorem C06_redactable_flag (s : LState) (bufIsRedactable redOut wd : Bool) (d :
 /-- the two output modes see the same buffers: the plain mode strips the markers of a
     redactable buffer, and leaves a non-redactable one as it is -/
 theorem C06_collect_congruent (s : LState) (b wd : Bool) (d : Nat) (t : Str) :
-    (collect s b false wd d t).head = (if b then stripMarkers (collect s b true wd d t).head else (collect s b true wd d t).head) ∧
-    (collect s b false wd d t).details = (if b then stripMarkers (collect s b true wd d t).details else (collect s b true wd d t).details) := by
+    (collect s b false wd d t).head = (if b then bytesT (stripT (collect s b true wd d t).head) else (collect s b true wd d t).head) ∧
+    (collect s b false wd d t).details = (if b then bytesT (stripT (collect s b true wd d t).details) else (collect s b true wd d t).details) := by
   unfold collect
   cases b <;> simp
 
